@@ -144,8 +144,7 @@ func (w *World) checkC03(n *Node, c *commitRec) {
 					err = fmt.Errorf("panic: %v", r)
 				}
 			}()
-			w.ys.noPark++ // oracle code running on a library goroutine (inside the commit callback)
-			defer func() { w.ys.noPark-- }()
+			defer w.quiet()() // oracle code running on a library goroutine (inside the commit callback)
 			err = j.lh.ValidateBlockConsensus(context.Background(), c.block, c.proof, prevB, prevP, false)
 		}()
 		w.probe("c03-cross-validated")
@@ -561,9 +560,9 @@ func (w *World) checkC09(n *Node, s *SentRec, m *Msg, h, v uint64) {
 			w.violate("C09", "nv-no-quorum", "n%d sent NEW_VIEW (h%d,v%d) with votes of weight %d < %d", n.idx, h, v, w.weightOf(h, ids), q)
 			return
 		}
-		w.ys.noPark++
+		quietDone := w.quiet()
 		stored, ok := n.st.inner.GetViewChangeMessages(primitives.BlockHeight(h), primitives.View(v))
-		w.ys.noPark--
+		quietDone()
 		if ok && len(stored) != len(m.Votes) {
 			w.violate("C09", "nv-votes-not-all-counted", "n%d sent NEW_VIEW (h%d,v%d) with %d votes but had stored %d", n.idx, h, v, len(m.Votes), len(stored))
 			return
